@@ -266,7 +266,8 @@ def pack_args(name, flat):
             args.append(np.array(flat[k:k + 2], dtype=np.float64))
             k += 2
         else:
-            args.append(float(flat[k]))
+            # the pure-Python helpers of prior.py are called with numpy scalars by tsdate itself
+            args.append(np.float64(flat[k]) if name in PURE_PYTHON else float(flat[k]))
             k += 1
     return args
 
